@@ -104,13 +104,15 @@ def alphas(tiny=False):
     return st.one_of(*base)
 
 
-def make_dataset(shape, kinds, values, errors, name='ds', layout='C'):
+def make_dataset(shape, kinds, values, errors, name='ds', layout='C', vdtype=None):
     """Dataset from flat lists; shape [] gives a scalar (numpy.float64) dataset.  ``layout``
-    'F': the same numbers in Fortran memory order (what a transposed view has)."""
+    'F': the same numbers in Fortran memory order (what a transposed view has).  ``vdtype``
+    'i4' / 'i8': the values (integers then: counts, tallies) are stored with that integer dtype."""
     shape = tuple(shape)
+    vtype = np.dtype(vdtype) if vdtype else np.dtype(float)
     if not shape:
-        return Dataset(np.float64(values[0]), np.float64(errors[0]), name=name, what='w')
-    val = np.array(values, dtype=float).reshape(shape)
+        return Dataset(vtype.type(values[0]), np.float64(errors[0]), name=name, what='w')
+    val = np.array(values, dtype=vtype).reshape(shape)
     err = np.array(errors, dtype=float).reshape(shape)
     if layout == 'F':
         val, err = np.asfortranarray(val), np.asfortranarray(err)
